@@ -100,7 +100,10 @@ func genTables(c *Ctx, verifDir string) error {
 	tab := guardTable(c)
 	b, _ := json.MarshalIndent(tab, "", " ")
 	os.MkdirAll(filepath.Join(verifDir, "tables"), 0o755)
-	return os.WriteFile(filepath.Join(verifDir, "tables", "zk_guards.json"), append(b, '\n'), 0o644)
+	if err := os.WriteFile(filepath.Join(verifDir, "tables", "zk_guards.json"), append(b, '\n'), 0o644); err != nil {
+		return err
+	}
+	return genRoundTables(c, verifDir)
 }
 
 var verifDirGlobal string
